@@ -499,7 +499,9 @@ func c10Prop(t *rapid.T) {
 			for k := range model {
 				ks = append(ks, k)
 			}
-			sort.Slice(ks, func(i, j int) bool { return ks[i].name < ks[j].name || (ks[i].name == ks[j].name && ks[i].rev < ks[j].rev) })
+			sort.Slice(ks, func(i, j int) bool {
+				return ks[i].name < ks[j].name || (ks[i].name == ks[j].name && ks[i].rev < ks[j].rev)
+			})
 			k := rapid.SampledFrom(ks).Draw(t, "key")
 			how := rapid.SampledFrom([]string{"query", "list", "get"}).Draw(t, "readBy")
 			st := rapid.SampledFrom(c10Statuses).Draw(t, "status")
